@@ -189,7 +189,9 @@ def random_file(rng):
         if rng.random() < 0.5:
             nts.append({"kind": "struct", "name": n, "vars": [var("")]})
         else:
-            nts.append({"kind": "enum", "name": n, "vars": [var(rng.choice(UPPER if rng.random() < 0.85 else names)) for _ in range(rng.randint(0, 3))]})
+            # variant names from a small sub-pool, so that equal names (adjacent or not) are frequent
+            vpool = rng.sample(UPPER, 3) + [rng.choice(names)]
+            nts.append({"kind": "enum", "name": n, "vars": [var(rng.choice(vpool)) for _ in range(rng.randint(0, 4))]})
     starts = [rng.choice(nt_names if rng.random() < 0.85 else names) for _ in range(rng.choice([1, 1, 1, 1, 0, 2]))]
     tenums = [{"name": rng.choice(UPPER if rng.random() < 0.85 else names), "vars": t_names}] * rng.choice([1, 1, 1, 1, 0, 2])
     tenums = [dict(t) for t in tenums]
@@ -244,7 +246,7 @@ def check(prop, tier, seed):
     multi = set()
     for c, rec in zip(r.tagged("FILE"), records):
         pass
-    rnd = [random_file(rng) for _ in range(3000 if tier == "quick" else 60000)]
+    rnd = [random_file(rng) for _ in range(3000 if tier == "quick" else 300000)]
     classes2, _ = run_and_judge(rnd, rng, wd, run, "vobs_rand")
     run.nontrivial = {json.dumps([rec["res"]["v"], rec["res"]["name"], rec["res"]["syms"], len(rec["res"]["pos"])]) for rec in records}
     run.notes["outcome_classes"] = sorted("%s/%s" % (v, "violating" if b else "clean") for v, b in (classes | classes2))
